@@ -261,7 +261,18 @@ def rule_entries(facts):
         for blk in b.calls():
             nm = flow.callee(blk.term) or ""
             d_ = flow.declared(blk.term) or ""
-            uses = any(a.ty.k == "ref" and pat.has_arg(tm.of_operand(a), "input") for a in blk.term.args)
+            rty = None
+            for i_ in range(b.arg_count):
+                if (b.locals[i_ + 1].name or "") == "input":
+                    rty = b.locals[i_ + 1].ty
+            def is_reader(a):
+                if a.ty.k != "ref" or not pat.has_arg(tm.of_operand(a), "input"):
+                    return False
+                t_ = tm.of_operand(a)
+                while isinstance(t_, tuple) and t_ and t_[0] in ("ref", "deref"):
+                    t_ = t_[1]
+                return isinstance(t_, tuple) and t_[0] == "arg" and t_[2] == "input"
+            uses = any(is_reader(a) for a in blk.term.args)
             if not uses:
                 continue
             if fn.endswith("::decompress"):
